@@ -1188,6 +1188,41 @@ def op_rt(scn):
 
 
 
+@op("txt_fields")
+def op_txt_fields(scn):
+    """the field layer of the TXT format, through Python's own join/split/strip and through the
+    library (a graph with these vertex names written to a file and read back)"""
+    import tempfile
+    from chipfiring.CFDataProcessor import CFDataProcessor
+    names = list(scn["names"])
+    line = " " + ", ".join(names)
+    out = {"line": line,
+           "parsed_line": [p.strip() for p in line.split(",")],
+           "parsed_text": [p.strip() for p in scn["text"].split(",")]}
+    # through the library: only when every name is a non-empty single line without ':' (the
+    # reader removes the prefix with str.replace) - otherwise the file layer is out of scope
+    lib = None
+    if names and len(set(names)) == len(names) and all(nm and "\n" not in nm and "\r" not in nm and ":" not in nm and "\x0b" not in nm and "\x0c" not in nm
+                                                       and "\x1c" not in nm and "\x1d" not in nm and "\x1e" not in nm and "\x85" not in nm
+                                                       and "\u2028" not in nm and "\u2029" not in nm for nm in names):
+        ok, G = call(CFGraph, set(names), [])
+        if ok:
+            proc = CFDataProcessor()
+            with tempfile.TemporaryDirectory() as td:
+                path = os.path.join(td, "g.txt")
+                call(proc.to_txt, G, path)
+                try:
+                    first = open(path, encoding="utf-8").read().split("\n")[0]
+                except Exception:
+                    first = None
+                ok2, back = call(proc.read_txt, path, "graph")
+                lib = {"first_line_tail": first[len("VERTICES:"):] if isinstance(first, str) and first.startswith("VERTICES:") else first,
+                       "sorted_names": sorted(names),
+                       "read_back": sorted(v.name for v in back.vertices) if (ok2 and back is not None) else None}
+    out["_lib"] = lib
+    return out
+
+
 @op("bounds")
 def op_bounds(scn):
     from chipfiring import CFCombinatorics as CC
